@@ -33,8 +33,8 @@ from machines.build import BUILD_STUBS
 
 NAMES = {'n0': ['x', 'y', 'z'], 'n1': ['y', 'extra'], 'N2': ['x', 'k'],
          'N3': ['x', 'y'], 'n4': [], 'n5': ['x'], 'n6': ['x', 'y', 'k'],
-         'n0b': ['x', 'y', 'w'], 'n7': ['x', 'extra'], 'n9': ['x', 'y'], 'n10': ['y', 'extra']}
-JSON_OK = ('n0', 'n1', 'N2', 'N3', 'n6', 'n0b', 'n7', 'n9', 'n10')   # stubs that have a pyref
+         'n0b': ['x', 'y', 'w'], 'n7': ['x', 'extra'], 'n9': ['x', 'y'], 'n10': ['y', 'extra'], 'n12': ['y']}
+JSON_OK = ('n0', 'n1', 'N2', 'N3', 'n6', 'n0b', 'n7', 'n9', 'n10', 'n12')   # stubs that have a pyref
 TAGS = ['T0', 'T1', 'T2', 'U0']
 BTYPES = {'Config': fdl.Config, 'Partial': fdl.Partial,
           'ArgFactory': fdl.ArgFactory}
@@ -191,6 +191,9 @@ def gen_case(world, tier, prop):
   def new_op():
     d = node(0)
     fn_of.append(d['node']['fn'])
+    if d['node']['fn'] == 'n12' and rng.random() < 0.7:
+      # ... followed by `cfg.x = cfg.x`: the default OBJECT is stored explicitly
+      pending.append({'op': 'store_default', 'c': len(fn_of) - 1, 'n': 0, 'name': 'x'})
     return {'op': 'new', 'v': d}
 
   def target():
@@ -272,9 +275,9 @@ def gen_case(world, tier, prop):
     return op
 
   late_defined = [False]
+  pending = []
   ops = [new_op()]
   n = rng.randint(3, 16 if tier == 'thorough' else 11)
-  pending = []
   while len(ops) < n:
     r = rng.random()
     if pending and rng.random() < 0.5:
@@ -487,6 +490,12 @@ def model_apply(S_: Side, op):
       if m.sv.va is None and op['key'] == 'VA':
         raise Skip()
       m.delitem(real_key(op['key'], m.sv.P))
+    return None
+  if k == 'store_default':
+    m = S_.target(op)
+    if m.btype == 'TaggedValueCls' or op['name'] not in m.sv.defaults or op['name'] in m.named:
+      raise Skip()
+    m.setattr(op['name'], m.sv.defaults[op['name']])   # the default object itself
     return None
   if k == 'assign':
     # fdl.assign(node, **kwargs): assignments in keyword order; the first refused
@@ -701,6 +710,10 @@ def impl_apply(S_: Side, op):
   if k == 'select_use':
     S_.sels[op['s'] % len(S_.sels)].replace(S_.value(op['v']))
     return None
+  if k == 'store_default':
+    tgt = S_.target(op)
+    setattr(tgt, op['name'], getattr(tgt, op['name']))
+    return None
   if k == 'assign':
     from fiddle._src import mutate_buildable
     # (values are made in keyword order, like the model does, up to the refusal)
@@ -876,7 +889,7 @@ def reconcile_kw_order(pre, before_named):
 
 COPY_OPS = ('copy', 'cast', 'copy_with', 'deepcopy', 'pickle', 'json',
             'deepcopy_with', 'diff_tags')
-EDIT_OPS = ('setattr', 'delattr', 'setitem', 'delitem', 'assign')
+EDIT_OPS = ('setattr', 'delattr', 'setitem', 'delitem', 'assign', 'store_default')
 TAG_OPS = ('add_tag', 'remove_tag', 'set_tags', 'clear_tags')
 # (update_callable only occurs inside diff_tags edits)
 
